@@ -122,9 +122,9 @@ private structure ForAll (cur : DBState) (t : Terms) (now : Int) : Prop where
   epoch : validateEpoch cur t = .ok ()
 
 private theorem validateForAllDKGs_ok {cur t now u} (h : validateForAllDKGs cur t now = .ok u) : ForAll cur t now := by
-  unfold validateForAllDKGs at h
+  unfold validateForAllDKGs validateForAllDKGsV at h
   exc at h
-  obtain ⟨h1, h2, h3, h4, h5, h6, h7⟩ := h
+  obtain ⟨h1, h2, h3, _, h4, h5, h6, h7⟩ := h
   exact ⟨by simpa using h1, by simpa using h2, by simpa using h3, h4, h5, h6, h7⟩
 
 
